@@ -21,10 +21,14 @@ is evaluated on the mirror of the tree and must give the creation result back (t
 c02_created_bytes_load_back, executed); the loader model on the bytes the binary wrote must give
 that same torrent (name, piece length, piece list, files); the model's info dictionary must be
 byte-identical to the binary's when the drawn options leave info alone; and the direct oracle
-(lib.bdecode_strict + hashlib over the files on disk) states what the written file must contain."""
+(lib.bdecode_strict + hashlib over the files on disk) states what the written file must contain.
+The whole pipeline (Model/CreateWalk.v, tools/props/create_walk.py, command cwalk): the selection create hashes is the
+walker's own listing of the same tree (C06 composed with C01, C05 and the above); C06-style trees with contents x flags x
+globs x sort keys: create, verify, edit an excluded file (still 0), edit an included file (1), undo (0), against the
+extracted walk -> hasher -> build -> encode -> load composition (byte-identical file) and a documented-rules oracle."""
 import copy, hashlib, json, os, re, shutil, stat, tempfile
 import lib
-from props import vfy
+from props import vfy, create_walk
 
 MANIFEST = dict(
     text="Machine-checked proof over a model that composes the hasher loop of create (C01's model, any schedule of short reads) with "
@@ -35,14 +39,17 @@ MANIFEST = dict(
          "inverse for every working directory and input path. End to end: the bytes create writes (C05's assembled value, C04's "
          "encoding) load back through C03's loader as the very torrent the composed model verifies, for every tree, selection, piece "
          "length, --md5, read schedule and metainfo option set, so create-then-verify and verdict-tracks-content hold of the written "
-         "file. Tied to the code by running histories of create/edit/verify/re-create "
+         "file. The whole pipeline: create_walk = create on the walker's own selection (C06's Walk.walk on the size-erased "
+         "tree): the torrent lists exactly the documented files in the walker's order with the piece hashes of their contents in that "
+         "order, verifies whatever the flags excluded, and on any later filesystem succeeds iff every file the walker selected still "
+         "holds its bytes; enumeration order is irrelevant. Tied to the code by running histories of create/edit/verify/re-create "
          "on the real binary against the extracted models and an independent disk-reading oracle. Right level: the claim quantifies "
          "over all trees x all edit histories, which the repository's single-tree, single-edit tests cannot reach.",
     ref="DESIGN.md section 5, C02",
     technique="Coq proof over a Gallina model + model/implementation correspondence run on the real binary + independent oracle",
     note="Assumed: SHA-1/MD5 are functions (Section variables) and no two different compared blocks collide under SHA-1 (explicit "
-         "hypothesis of the only-if direction). The walker's selection and order are taken from the torrent as written (C06 owns "
-         "them). End-to-end hypotheses: digest lengths 20/16, UTF-8 names and components, i64 lengths (each shown necessary by an "
+         "hypothesis of the only-if direction). In the history part the walker's selection and order are taken from the torrent "
+         "as written; the create-walk part proves and checks that they are C06's (link-free trees with distinct plain names). End-to-end hypotheses: digest lengths 20/16, UTF-8 names and components, i64 lengths (each shown necessary by an "
          "example). Not modelled: symlinks, permissions, FIFOs, concurrent modification. "
          "Trusted: Coq kernel, extraction, OCaml drivers, Python oracle.")
 
@@ -833,6 +840,8 @@ def run(ctx):
                               describe(ctx, small, h2, why))
     finally:
         shutil.rmtree(tmp, ignore_errors=True)
+    # the whole pipeline (X7): the walker's own selection of the tree that is hashed, then verify
+    create_walk.run(ctx, ctx.n(110, 2500))
     return finish(ctx)
 
 
@@ -885,12 +894,12 @@ def finish(ctx):
         "that no two different blocks among those compared have the same SHA-1 (collision_free)",
         "a read on a regular file returns 0 only at end of file or for an empty window, otherwise between 1 and min(window, rest) "
         "bytes (both loops, every schedule)",
-        "the walker's selection and order are taken from the written torrent (C06)",
+        "histories: the walker's selection and order are taken from the written torrent; create-walk cases: they are Walk.walk's (C06), proved and compared",
         "end to end (c02_created_bytes_load_back, c02_end_to_end): SHA-1 yields 20 bytes, MD5 yields 16 bytes each < 256 (Section "
         "hypotheses); the name and every selected component are valid UTF-8 (create refuses others before hashing; the composed model "
         "leaves them open) and every written integer fits i64 (C05's opts_ok / input_ok) - the examples c02_ex_needs_* show each is needed",
         "no symlinks, FIFOs, permission failures or concurrent modification among the listed paths",
-    ]
+    ] + create_walk.ASSUMPTIONS
     return ctx.finish(
         rule="seeded histories on the real binary: a tree of 1-6 files (or a single file) with sizes around multiples of the piece "
              "length incl. empty files and a last file wholly inside the last partial piece, piece lengths 1..64 and 16/32 KiB, --md5 "
@@ -903,16 +912,18 @@ def finish(ctx):
              "create -> build -> encode -> load composition with real digests and a seed-drawn set of metainfo options (announce, tiers, "
              "comment, nodes, created-by, date, allows; private/source/update-url in a third; about one in 17 leaves opts_ok: the "
              "malformed stream), compared with the loader model on the written bytes, the independent strict reader and hashlib; distinct "
-             "by (flavour, layout, piece length, md5, side conditions, info-free, number of files)",
-        trusted_base=["Coq 8.16.1 kernel (coqc)", "extraction with ExtrOcamlBasic + runner/driver.d/createverify.ml, verify.ml, endtoend.ml (SHA-1 in OCaml, checked against hashlib on every run)",
+             "by (flavour, layout, piece length, md5, side conditions, info-free, number of files). " + create_walk.RULE,
+        trusted_base=["Coq 8.16.1 kernel (coqc)", "extraction with ExtrOcamlBasic + runner/driver.d/createverify.ml, verify.ml, endtoend.ml, createwalk.ml (SHA-1 in OCaml, checked against hashlib on every run)",
                       "Python oracle in tools/props/c02.py (os.stat, file reads, lib.bdecode_strict via vfy.read_torrent)"],
     )
 
 
 def replay(ctx, path):
     doc = json.load(open(path))
-    case = vfy.from_js(doc["case"]["case"])
     ctx.need_rust(); ctx.need_runner()
+    if doc["case"].get("kind") == "create-walk":
+        return create_walk.replay(ctx, doc["case"])
+    case = vfy.from_js(doc["case"]["case"])
     tmp = tempfile.mkdtemp(prefix="c02-replay-")
     try:
         h = History(ctx, case, tmp).run()
